@@ -184,22 +184,21 @@ CHECKS = {
              "the turn-based current player is live; every step forwards exactly one accepted manager step (no fake "
              "step), so a play-through ends when the episode ends. GymWrapper returns exactly the single learner's "
              "entries and never hits a KeyError under the manager protocol. Both are proved on top of the C01/C07 "
-             "manager invariant. Setter alphabet: C15_openspiel_with_setter_partial / osRunX_never_forwards_done are "
+             "manager invariant. Setter alphabet: C15_openspiel_with_setter / osRunX_never_forwards_done are "
              "over every history of reset | step (any action list) | `current_player = a` (the public setter, any a, "
              "accepted exactly for learning agents) - osRunX delegates to the same osReset/osStep and is osRun "
-             "without setter calls (osRunX_of_plain). Proved for every such history: all clauses above, 'never "
-             "forwards an action for an already-done agent' for every manager call of the play-through, an action "
-             "for a done agent (turn-based, only reachable through the setter) is answered by the fake MID step "
-             "that forwards nothing, and every time step that comes out of a manager call names a live current "
-             "player (specC15Xw). The judge is specC15X, which also demands that the current player named by the "
-             "fake step can still act (no taint flag: the setter switches no clause off); that conjunct is false of "
-             "the code as it is - open finding C15-K1 (the fake step names the first learning agent even when it is "
-             "done: livelock), reported as KNOWN-FINDING; C15_openspiel_with_setter is the full specC15X on every "
-             "history that does not hit it. Tie: real OpenSpielWrapper (open_spiel installed) and GymWrapper over "
-             "real managers over the stub; time steps and forwarded manager calls must equal the model's, judged by "
-             "specC15 / specC15X; the setter stream drives `wrapper.current_player = id` (done and live learning "
-             "agents, non-learning agents, unknown ids) interleaved with steps and resets, steered towards 'name a "
-             "done agent, step, keep stepping'.",
+             "without setter calls (osRunX_of_plain); specC15X contains specC15 (specC15_of_specC15X). Proved for "
+             "every such history (specC15X, no taint flag: the setter switches no clause off): all clauses above, "
+             "'never forwards an action for an already-done agent' for every manager call of the play-through, an "
+             "action for a done agent (turn-based, only reachable through the setter) is answered by the fake MID "
+             "step that forwards nothing, and every time step - the fake step's included - names a current player "
+             "who can still act. Finding C15-K1 was found by this check (the fake step named the first learning "
+             "agent even when it was done: fake-step livelock after current_player = <done agent>) and repaired in "
+             "commit TBD; its history is a regression case. Tie: real OpenSpielWrapper (open_spiel installed) and "
+             "GymWrapper over real managers over the stub; time steps and forwarded manager calls must equal the "
+             "model's, judged by specC15 / specC15X; the setter stream drives `wrapper.current_player = id` (done "
+             "and live learning agents, non-learning agents, unknown ids) interleaved with steps and resets, "
+             "steered towards 'name a done agent, step, keep stepping'.",
         design="§5 C15", technique="Lean 4 proof (adapter invariant over call sequences, reusing the manager invariant) "
                                    "+ differential correspondence with the real adapters"),
     "C08": dict(
